@@ -57,7 +57,15 @@ fn mask(u: &mut Unstructured) -> Result<Option<u8>> {
 pub fn op(u: &mut Unstructured) -> Result<Op> {
     let path = if u.ratio(3, 4)? { Path::Pib } else { Path::Alloc };
     let slack = |u: &mut Unstructured| -> Result<u8> { Ok(if u.ratio(3, 4)? { 0 } else { u.int_in_range(0..=40u8)? }) };
-    Ok(match u.int_in_range(0..=19u8)? {
+    Ok(match u.int_in_range(0..=20u8)? {
+        // setter calls that must be rejected and leave everything unchanged
+        20 => {
+            if u.ratio(1, 2)? {
+                Op::SetRatioRaw { value: [0.0, -1.0, 1e-300, 1e300, f64::NAN, f64::INFINITY][u.int_in_range(0..=5usize)?], relative: u.arbitrary()?, ramp: u.arbitrary()? }
+            } else {
+                Op::SetChunkRaw { size: [0usize, usize::MAX, 1 << 40][u.int_in_range(0..=2usize)?] }
+            }
+        }
         0..=9 => Op::Process { path, slack_in: slack(u)?, slack_out: slack(u)?, mask: mask(u)? },
         10..=11 => Op::Partial { path, frac: if u.ratio(1, 3)? { None } else { Some(u.arbitrary()?) }, slack_out: slack(u)?, mask: mask(u)? },
         12..=16 => Op::SetRatio { pos: 2.0 * unit(u)? - 1.0, relative: u.arbitrary()?, ramp: u.arbitrary()? },
